@@ -32,6 +32,15 @@ def mergeInvB (d : Bytes) (s : PState) : Bool :=
   C13.P s.tree 0 == INV && (slot s.tree 0).opcode == opIntScopeBlock &&
   (List.range s.tree.pool.size).all fun x => !isDirB s x || shapeAtB d s.tree x
 
+/-- the pool hypotheses of `C12.parse_prefix_no_panic_WF` for a table with handle `handle`: the root is a parentless
+scope block, freed slots carry no name (`newObject` keeps the name of a slot it reuses), and no `Scope` object left
+behind by an earlier table carries this table's handle -/
+def poolHypB (t : ObjectTree) (handle : Nat) : Bool :=
+  C13.P t 0 == INV && (slot t 0).opcode == opIntScopeBlock &&
+  (List.range t.pool.size).all fun x =>
+    (live t x || (slot t x).name.b0 == 0) &&
+    (!live t x || (slot t x).opcode != opScope || (slot t x).tableHandle != handle)
+
 /-- `CallShape` -/
 def callShapeB (s : PState) : Bool :=
   (List.range s.tree.pool.size).all fun x =>
@@ -57,9 +66,11 @@ def shB (t : ObjectTree) (m : Nat) : Bool :=
   live t (Fi t m) && live t (Nx t (Fi t m)) &&
     (match (slot t (Nx t (Fi t m))).value with | .u64 _ => true | _ => false)
 
-/-- every live `Method` has its flags argument -/
-def msB (t : ObjectTree) : Bool :=
-  (List.range t.pool.size).all fun m => !(live t m && (slot t m).opcode == opMethod) || shB t m
+/-- every live `Method` has its flags argument, or nobody can find it: it has no name (first byte zero) and
+encloses neither the root nor `ref` — what a rejected earlier table may leave behind -/
+def unfB (t : ObjectTree) (ref : Nat) : Bool :=
+  (List.range t.pool.size).all fun m => !(live t m && (slot t m).opcode == opMethod) || shB t m ||
+    ((slot t m).name.b0 == 0 && !C13.isAncestorOrSelf t m t.fuel 0 && !C13.isAncestorOrSelf t m t.fuel ref)
 
 /-- no `Method` on the scope stack -/
 def stackNMb (s : PState) : Bool := s.scopeStack.toList.all fun x => (slot s.tree x).opcode != opMethod
@@ -82,7 +93,7 @@ def blockOKb (s : PState) (obj : Nat) : Bool :=
 def blockAudit (d : Bytes) (s : PState) (obj : Nat) : List String :=
   (if fpB d s then [] else ["deferred-block:state-well-formed"]) ++
   (if stackNMb s then [] else ["deferred-block:no-method-on-scope-stack"]) ++
-  (if msB s.tree then [] else ["deferred-block:methods-have-flags"]) ++
+  (if unfB s.tree obj then [] else ["deferred-block:methods-have-flags-or-unreachable"]) ++
   (if blockOKb s obj then [] else ["deferred-block:block-object"]) ++
   (if s.tree.pool.size + 16 * d.size + 16 ≤ INV then [] else ["deferred-block:object-budget"])
 
@@ -101,7 +112,7 @@ def auditDeferredBlocks (d : Bytes) (fuel : Nat) : Nat → Nat → PState → Li
       | some flags =>
         if hasFlag flags flagDeferParsing ∧ o.tableHandle = s.tableHandle then
           match parseDeferred d fuel obj s with
-          | .ok (r, s') => .ok (r, s', acc ++ blockAudit d s obj)
+          | .ok (r, s') => .ok (r, s', acc ++ ("#block" :: blockAudit d s obj))
           | .error e => .error e
         else auditDeferredLoop d fuel f o.firstArgIndex s acc
 
@@ -122,13 +133,16 @@ end
 
 /-- `ParseAML` stage by stage (the same calls in the same order as `parseAMLBody`), collecting the names of the
 shape hypotheses that do not hold where a theorem assumes them: `MergeInv` after a first pass that did not fail,
-the hypotheses of the per-block theorem in front of every deferred block, `CallShape` before `resolveMethodCalls` -/
+the hypotheses of the per-block theorem in front of every deferred block (one `#block` marker per block that was
+checked), `CallShape` before `resolveMethodCalls` -/
 def shapeAudit (d : Bytes) (fuel handle : Nat) (s : PState) : List String :=
+  -- a marker (statistic): do the pool hypotheses of the theorem that derives `MergeInv` hold for this table?
+  let f0 := [if poolHypB s.tree handle then "#pool-hyp-holds" else "#pool-hyp-fails"]
   match (do init d handle; scopeEnter 0; parseObjectList d fuel fuel : P PRes) s with
-  | .error _ => []
+  | .error _ => f0
   | .ok (r, s1) =>
-    if r = .failed then [] else
-    let f1 := if mergeInvB d s1 then [] else ["MergeInv-after-first-pass"]
+    if r = .failed then f0 else
+    let f1 := f0 ++ (if mergeInvB d s1 then [] else ["MergeInv-after-first-pass"])
     match connectNamedObjArgs d fuel 0 s1 with
     | .error _ => f1
     | .ok (r2, s2) =>
